@@ -1,4 +1,4 @@
-import Upd
+import Upd.Server
 open Upd
 
 def kv (toks : List String) (k : String) : String :=
@@ -24,24 +24,40 @@ def mkBody (kind : String) (t : List String) : Body :=
 
 def pubOf (s : String) : Nat := ((s.drop 1).toString.toNat?).getD 0     -- "s3" ↦ 3, anything else ↦ 0 (unknown)
 
+def flag (t : List String) (k : String) (dflt : Bool) : Bool :=
+  match kv t k with | "" => dflt | v => v = "1"
+def natOr (t : List String) (k : String) (dflt : Nat) : Nat :=
+  match (kv t k).toNat? with | some n => if n = 0 then dflt else n | none => dflt
+
+def mkConf (t : List String) : Conf :=
+  { store := (match kv t "store" with | "" => "mem" | v => v), ro := flag t "ro" false, push := flag t "push" true,
+    del := flag t "del" true, bdel := flag t "bdel" true, ref := flag t "ref" true,
+    mlimit := natOr t "mlimit" 8388608, rlimit := natOr t "rlimit" 4194304, upmax := natOr t "upmax" 0 }
+
+def mkQ' (t : List String) : Q :=
+  { mount := kv t "mount", fromR := kv t "from", digest := kv t "digest", algo := kv t "algo",
+    cr := kv t "cr", state := kv t "state", body := expand (kv t "body") }
+
+def out (p : State × Resp) : State × String := (p.1, p.2.line)
+
 def step (s : State) (line : String) : State × String :=
   match (line.trimAscii.toString.splitOn " ").filter (· ≠ "") with
-  | "UPOST" :: r :: rest => let (s', o) := uPost s r (mkQ rest); (s', o.line)
-  | "UPATCH" :: r :: sid :: rest => let (s', o) := uPatch s r (pubOf sid) (mkQ rest); (s', o.line)
-  | "UPUT" :: r :: sid :: rest => let (s', o) := uPut s r (pubOf sid) (mkQ rest); (s', o.line)
-  | ["UGET", r, sid] => let (s', o) := uGet s r (pubOf sid); (s', o.line)
-  | ["UDEL", r, sid] => let (s', o) := uDel s r (pubOf sid); (s', o.line)
-  | ["BGET", r, a] => let (s', o) := bGet s r a false; (s', o.line)
-  | ["BHEAD", r, a] => let (s', o) := bGet s r a true; (s', o.line)
-  | ["BDEL", r, a] => let (s', o) := bDel s r a; (s', o.line)
+  | "UPOST" :: r :: rest => out (Upd.step s (.uPost r (mkQ' rest)))
+  | "UPATCH" :: r :: sid :: rest => out (Upd.step s (.uPatch r (pubOf sid) (mkQ' rest)))
+  | "UPUT" :: r :: sid :: rest => out (Upd.step s (.uPut r (pubOf sid) (mkQ' rest)))
+  | ["UGET", r, sid] => out (Upd.step s (.uGet r (pubOf sid)))
+  | ["UDEL", r, sid] => out (Upd.step s (.uDel r (pubOf sid)))
+  | "BGET" :: r :: a :: rest => out (Upd.step s (.bGet r a false (kv rest "range")))
+  | "BHEAD" :: r :: a :: rest => out (Upd.step s (.bGet r a true (kv rest "range")))
+  | ["BDEL", r, a] => out (Upd.step s (.bDel r a))
   | "DEF" :: name :: kind :: rest => ({ s with defs := s.defs ++ [(name, mkBody kind rest)] }, "def")
-  | "MPUT" :: r :: ref :: rest => let (s', o) := mPut s r ref (kv rest "ct") (kv rest "qd") (kv rest "body"); (s', o.line)
-  | "MGET" :: r :: ref :: rest => let (s', o) := mGet s r ref (csv (kv rest "accept")) false; (s', o.line)
-  | "MHEAD" :: r :: ref :: rest => let (s', o) := mGet s r ref (csv (kv rest "accept")) true; (s', o.line)
-  | ["MDEL", r, ref] => let (s', o) := mDel s r ref; (s', o.line)
-  | "TAGS" :: r :: rest => let (s', o) := tags s r (kv rest "n") (kv rest "last"); (s', o.line)
-  | "REFS" :: r :: arg :: rest => let (s', o) := refs s r arg (kv rest "at"); (s', o.line)
-  | ["NEW"] => ({ defs := s.defs }, "new")
+  | "MPUT" :: r :: ref :: rest => out (Upd.step s (.mPut r ref (kv rest "ct") (kv rest "qd") (kv rest "body") (kv rest "len" ≠ "unknown")))
+  | "MGET" :: r :: ref :: rest => out (Upd.step s (.mGet r ref (csv (kv rest "accept")) false (kv rest "range")))
+  | "MHEAD" :: r :: ref :: rest => out (Upd.step s (.mGet r ref (csv (kv rest "accept")) true (kv rest "range")))
+  | ["MDEL", r, ref] => out (Upd.step s (.mDel r ref))
+  | "TAGS" :: r :: rest => out (Upd.step s (.tags r (kv rest "n") (kv rest "last")))
+  | "REFS" :: r :: arg :: rest => out (Upd.step s (.refs r arg (kv rest "at") (kv rest "cache") (kv rest "page")))
+  | "NEW" :: conf => ({ defs := s.defs, resps := s.resps, conf := mkConf conf }, "new")
   | _ => (s, "bad-op")
 
 partial def loop (h : IO.FS.Stream) (out : IO.FS.Stream) (s : State) : IO Unit := do
